@@ -144,11 +144,14 @@ impl VisitMut for OutEraser {
         let folded = if let BlockStmtOrExpr::BlockStmt(b) = &*a.body {
             if b.span.is_dummy() {
                 let rest: Vec<&Stmt> = b.stmts.iter().filter(|s| !is_gen_stmt(s)).collect();
+                // "converted to a block only to hold declarations": a block without any generated
+                // declaration is not folded back (the arrow then counts as rewritten)
+                let holds_declarations = rest.len() < b.stmts.len();
                 match rest.as_slice() {
                     [Stmt::Return(ReturnStmt {
                         arg: Some(arg),
                         span,
-                    })] if span.is_dummy() => Some(arg.clone()),
+                    })] if span.is_dummy() && holds_declarations => Some(arg.clone()),
                     _ => None,
                 }
             } else {
